@@ -226,4 +226,22 @@ def d4(ctx):
                       'DjangoCache.%s has a return path that does not perform exactly one operation on the underlying '
                       'cache and return its result (e.g. a shortcut for "already expired" timeouts that leaves an '
                       'existing live value in place)' % name, f.loc(), wit))
+    # maintenance methods: an adapter method named like a FanoutCache method performs that operation
+    fc = ctx.prog.classes['FanoutCache']
+    data = {'add', 'get', 'set', 'touch', 'pop', 'delete', 'incr', 'decr', 'has_key', 'read', 'memoize'}
+    for name, f in sorted(ci.methods.items()):
+        if name.startswith('_') or name in data or name not in fc.methods or f.is_property:
+            continue
+        ok, wit, n = True, None, 0
+        for p in ctx.paths(f, 'default'):
+            if p.kind not in ('return', 'next'):
+                continue
+            n += 1
+            down = [e for e in p.trace if e.kind == 'CALL' and any(t.cls == 'FanoutCache' and t.name == name
+                                                                     for t in e.d['targets'])]
+            if not down:
+                ok, wit = False, fmt_trace(p.trace)
+        obs.append(Ob('D4', 'DjangoCache.%s/delegates' % name, ok and n > 0,
+                      'DjangoCache.%s has a path that does not call FanoutCache.%s: the adapter method silently does '
+                      'nothing' % (name, name), f.loc(), wit))
     return obs
